@@ -373,6 +373,56 @@ def _atom_shard(arg):
     return res.as_dict()
 
 
+def _above_max_shard(method):
+    """Requests above the maximum through the atomic constructors (added after seeded change C12-B of wave 12, which
+    clamped the sector degrees of from_pruned to the largest supported degree, was missed): AtomGrid(degrees=...),
+    AtomGrid(sizes=...), from_pruned(d_sectors=...) and from_pruned(s_sectors=...) reject any sequence with one element
+    above the largest supported value, wherever it stands and whatever the other elements are."""
+    from grid.atomgrid import AtomGrid
+
+    res = WorkerResult(section="above-max")
+    pairs = listing(method)
+    rg3, rg4 = _rgrid(3), _rgrid(4)
+    r = rg4.points
+    r_sectors = [0.5 * (r[0] + r[1]), 0.5 * (r[2] + r[3])]
+    for kind, sel in (("degrees", 0), ("sizes", 1)):
+        vals = sorted(pp[sel] for pp in pairs)
+        top = vals[-1]
+        for over in (top + 1, top + 2, top + 60, 10 * top):
+            for others in ((vals[0], vals[1]), (top, top), (0, top)):
+                for pos in range(3):
+                    seq = list(others)
+                    seq.insert(pos, over)
+                    for form in ("list", "array"):
+                        arg = list(seq) if form == "list" else np.array(seq)
+                        calls = {
+                            f"AtomGrid({kind})": (lambda: AtomGrid(rg3, degrees=arg, method=method)) if kind == "degrees"
+                            else (lambda: AtomGrid(rg3, sizes=arg, method=method)),
+                            f"from_pruned({'d' if kind == 'degrees' else 's'}_sectors)": (
+                                lambda: AtomGrid.from_pruned(rg4, 1.0, r_sectors=r_sectors, d_sectors=arg, method=method)) if kind == "degrees"
+                            else (lambda: AtomGrid.from_pruned(rg4, 1.0, r_sectors=r_sectors, d_sectors=None, s_sectors=arg, method=method)),
+                        }
+                        for cname, call in calls.items():
+                            res.count()
+                            case = {"route": "above-max", "method": method, "kind": kind, "request": seq, "form": form, "call": cname}
+                            try:
+                                with warnings.catch_warnings():
+                                    warnings.simplefilter("ignore")
+                                    g = call()
+                                got = [int(d) for d in g.degrees]
+                            except ValueError:
+                                res.nontrivial()
+                                continue
+                            except Exception as exc:
+                                res.violation(f"above-max:{method}:{kind}:raised:{type(exc).__name__}",
+                                              f"{cname} with {seq} ({method}): {type(exc).__name__}: {exc} instead of ValueError", case)
+                                continue
+                            res.violation(f"above-max:{method}:{kind}:not-rejected",
+                                          f"{cname} accepted {kind} {seq} although {over} > largest supported {top} ({method}); shells got degrees {got}", case)
+    res.sample({"route": "above-max", "method": method})
+    return res.as_dict()
+
+
 # ------------------------------------------------------------------------------- tables
 def check_tables(ctx):
     """The four pairs of dictionaries in angular.py must be mutually inverse, ascending and equal
@@ -500,6 +550,8 @@ def run(ctx):
         ctx.merge(res)
     for res in lattice.pmap(_narrow_and_both_shard, list(METHODS), w):
         ctx.merge(res)
+    for res in lattice.pmap(_above_max_shard, list(METHODS), w):
+        ctx.merge(res)
     ctx.cov["methods"] = list(METHODS)
     ctx.cov["supported_grids"] = {m: len(listing(m)) for m in METHODS}
 
@@ -619,6 +671,8 @@ def _cross_method_shard(arg):
 def replay(ctx, case):
     if case.get("route") == "narrow":
         return ctx.merge(_narrow_and_both_shard(case["method"]))
+    if case.get("route") == "above-max":
+        return ctx.merge(_above_max_shard(case["method"]))
     if case.get("route") == "cross-method":
         return ctx.merge(_cross_method_shard((case["first"], case["then"])))
     res = WorkerResult()
